@@ -127,6 +127,14 @@ def base_key(params):
     return f"{_exec.spec_key(params['spec'])}|plan={ps}"
 
 
+def sibling_failures(run_):
+    """True iff one job failed in two different steps (e.g. two of its transfer steps) during this execution."""
+    by_job = {}
+    for job, step in run_.fail_sites:
+        by_job.setdefault(job, set()).add(step)
+    return any(len(v) > 1 for v in by_job.values())
+
+
 def summarize(res):
     run_ = res["run"]
     counts = {}
